@@ -341,10 +341,39 @@ def decisions_before(p, i):
     return [(e[2], e[3], e[4]) for e in p[:i] if e[0] == "switch"]
 
 
+# debug_assert!s reachable from the audited entry points: each states an invariant that a rule of some property
+# establishes.  A debug assertion that is not listed is a panic-capable site like any other.
+DEBUG_SEEN = []
+DEBUG_INVARIANTS = {
+    "encoding::decode_into|panic|assert_failed(AssertKind::Eq, &Decoder::decode_to_string_without_replacement(..).1, &slice::len(&bytes))": "the output was reserved with max_utf8_buffer_length(len) and the call is made with last=true, so the decoder reads all of the input unless it is malformed (C17 R1: decode_into)",
+    "slice_reader::read_bang_element|panic|assert_failed(AssertKind::Eq, &self[_], &33)": "called only after peek_one() returned Some(b'!') (C01 R1 dispatch)",
+    "ReaderState::emit_bang|panic|assert_failed(AssertKind::Eq, &slice::first(&buf), &Option::Some(&33))": "called only with what read_bang_element returned, which starts with '!' (C01 R1 dispatch)",
+    "ReaderState::emit_bang|panic|debug_assert(slice::ends_with(&buf, &(*b\"--\")))": "a Comment is reported by BangType::parse only at `-->` (C01 R3 terminators)",
+    "ReaderState::emit_bang|panic|debug_assert(slice::ends_with(&buf, &(*b\"]]\")))": "a CData is reported by BangType::parse only at `]]>` (C01 R3 terminators)",
+    "ReaderState::emit_end|panic|assert_failed(AssertKind::Eq, &slice::first(&buf), &Option::Some(&47))": "called only for content starting with '/' (C01 R1 dispatch)",
+    "ReaderState::emit_question_mark|panic|debug_assert((slice::len(&buf) Gt 0))": "called only for content starting with '?' (C01 R1 dispatch)",
+    "ReaderState::emit_question_mark|panic|assert_failed(AssertKind::Eq, &buf[_], &63)": "called only for content starting with '?' (C01 R1 dispatch)",
+    "MapAccess<'de>>::next_key_seed|panic|assert_failed(AssertKind::Eq, &self.source, &ValueSource::Unknown)": "next_value_seed resets source to Unknown on every path and serde alternates key/value (C07 J2 flags)",
+    "MapAccess<'de>>::next_key_seed|panic|assert_failed(AssertKind::Eq, &BytesStart::name(&self.start), &BytesEnd::name(&(*Deserializer::peek(..)?) as End.0))": "the reader checks end names and every nested element was consumed to its End by its own deserializer or by read_to_end (C07 J1b preconditions, J8 skip)",
+    "SeqAccess<'de>>::next_element_seed|panic|assert_failed(AssertKind::Eq, &BytesStart::name(&(*self.map).start), &BytesEnd::name(&(*Deserializer::peek(..)?) as End.0))": "same as next_key_seed: the End that closes the sequence's parent (C07 J1b, J8)",
+}
+
+
 def discharge(body, site, p, i, e):
     macros = macro_of(body, site.sp)
     if any(m.startswith("debug_assert") for m in macros):
-        return "debug-assertion (internal invariant; see DEBUG_INVARIANTS)"
+        fn = sym.short(strip_generics(body.path).replace("::{closure#0}", "{c0}"))
+        d = describe_event(e)
+        if e[0] == "call" and d.startswith("panic(\"assertion failed"):
+            # `debug_assert!(cond)`: identified by the condition tested, not by the source text in the message
+            sw = [x for x in p[:i] if x[0] == "switch"]
+            d = "debug_assert(%s)" % (shape(sw[-1][2]) if sw else "?")
+        key = norm_shape("%s|%s|%s" % (fn, site.kind, d))
+        DEBUG_SEEN.append(key)
+        for ek, reason in DEBUG_INVARIANTS.items():
+            if key_matches(norm_shape(ek), key):
+                return "debug-assertion of an audited internal invariant: " + reason
+        return None   # a debug assertion on a condition nobody audited is a panic in every debug build
     kind = site.kind
     if kind.startswith("assert:Overflow:Add") or kind.startswith("assert:Overflow:Mul"):
         return "additive overflow of byte counts/indices (needs > 2^64 bytes)"
